@@ -217,7 +217,12 @@ fn parse_member(
     };
 
     let key_span = cst.span(key);
-    let key = String::from_str(&source[key_span.start + 1..key_span.end - 1]).unwrap_or_default();
+    // Member names are compared unescaped, as `serde_json` does on the value path
+    // (`{"a\nb": 1}` names the member `a<LF>b`, `"\u0061"` is `a`). A name that does not
+    // decode (invalid escape, lone surrogate) keeps its spelling.
+    let key = serde_json::from_str::<String>(&source[key_span.clone()]).unwrap_or_else(|_| {
+        String::from_str(&source[key_span.start + 1..key_span.end - 1]).unwrap_or_default()
+    });
 
     has_errors(cst, source, sub_node)?;
     let Some(member_value) = cst.children(sub_node).find(|node_ref| {
